@@ -639,3 +639,72 @@ func init() {
 		emit("conn fullrep cn=2")
 	}
 }
+
+// conn slowh: a Server with a ReadTimeout whose handlers take longer than that timeout, with the
+// next messages already waiting in the same segment. The timeout bounds reads, not handlers: the
+// handlers still run one at a time, in arrival order, each starting after the previous returned (C08).
+//
+//   conn slowh rt=<ms> hold=<ms> n=<k> => ev=s1,e1,s2,e2,... max=<handlers active at once>
+func execConnSlowH(toks []string) string {
+	geti := func(k string, def int) int {
+		v, _ := kvGet(toks, k)
+		n := def
+		fmt.Sscanf(v, "%d", &n)
+		return n
+	}
+	rt, hold, n := geti("rt", 20), geti("hold", 60), geti("n", 2)
+	if n < 1 || n > 8 || rt < 0 || hold < 0 || hold > 400 {
+		return "badinput"
+	}
+	var mu sync.Mutex
+	var ev []string
+	active, maxActive, ended := 0, 0, 0
+	h := diam.HandlerFunc(func(c diam.Conn, m *diam.Message) {
+		mu.Lock()
+		ev = append(ev, fmt.Sprintf("s%d", m.Header.HopByHopID))
+		active++
+		if active > maxActive {
+			maxActive = active
+		}
+		mu.Unlock()
+		time.Sleep(time.Duration(hold) * time.Millisecond)
+		mu.Lock()
+		ev = append(ev, fmt.Sprintf("e%d", m.Header.HopByHopID))
+		active--
+		ended++
+		mu.Unlock()
+	})
+	l := &scriptListener{ch: make(chan acceptRes, 2)}
+	srv := &diam.Server{Handler: h, Dict: dict.Default, ReadTimeout: time.Duration(rt) * time.Millisecond}
+	done := make(chan error, 1)
+	go func() { done <- srv.Serve(l) }()
+	mc := newMemConn()
+	mc.honourDeadlines = true
+	l.ch <- acceptRes{c: mc}
+	var seg []byte
+	for i := 1; i <= n; i++ {
+		seg = append(seg, simpleMsg(280, 0x80, 0, uint32(i), uint32(i), diam.NewAVP(264, 0x40, 0, datatype.DiameterIdentity("a")))...)
+	}
+	mc.deliver(seg)
+	waitFor(func() bool { mu.Lock(); defer mu.Unlock(); return ended == n }, time.Duration(n*hold+1500)*time.Millisecond)
+	time.Sleep(time.Duration(hold/2+5) * time.Millisecond)
+	mu.Lock()
+	out := fmt.Sprintf("ev=%s max=%d", strings.Join(ev, ","), maxActive)
+	mu.Unlock()
+	mc.Close()
+	l.ch <- acceptRes{err: acceptPermErr{}}
+	select {
+	case <-done:
+	case <-time.After(time.Second):
+	}
+	return out
+}
+
+func init() {
+	executors["conn slowh"] = execConnSlowH
+	connGens["slowh"] = func(r *RNG, n int, op string, emit func(string)) {
+		for i := 0; i < n; i++ {
+			emit(fmt.Sprintf("conn slowh rt=%d hold=%d n=%d", []int{0, 10, 20, 30}[r.Intn(4)], []int{0, 50, 70, 90}[r.Intn(4)], 2+r.Intn(3)))
+		}
+	}
+}
